@@ -152,6 +152,20 @@ static std::unique_ptr<Model> genModel(Rng& r, int ndim, int nvar, int drift, Mo
   return model;
 }
 
+// intrinsic model: one linear variogram (needs at least the universality condition).  The covariance used for it is
+// "field - h" where the field is set by every interpolator from the extension of its Dbs
+// (ACalcInterpolator::_check / KrigingSystem::isReady: getExtensionInPlace(mini, maxi, true) i.e. useSel = false)
+static std::unique_ptr<Model> genLinearModel(Rng& r, int nvar, ModelSpec& ms)
+{
+  VectorDouble sills(nvar * nvar, 0.);
+  for (int v = 0; v < nvar; v++) sills[v * nvar + v] = r.uni(0.5, 2.);
+  std::unique_ptr<Model> model(Model::createFromParam(ECov::LINEAR, r.uni(20, 60), 1., 1., VectorDouble(), sills, VectorDouble(), nullptr, true));
+  model->setDriftIRF(0, 0);
+  ms.desc  = "LINEAR+drift=0";
+  ms.drift = 0;
+  return model;
+}
+
 // targets: random points, some coincident with data locations (kept and dropped ones), optional target selection
 struct Targets
 {
@@ -423,6 +437,8 @@ static void opKriging(Rng& r, Ctx& c)
   }
   ModelSpec ms;
   auto model = genModel(r, s.ndim, s.nvar, drift, ms);
+  bool linear = !fext && r.coin(0.1);
+  if (linear) { drift = 0; model = genLinearModel(r, s.nvar, ms); }
   if (fext) { model->setDriftIRF(drift, 1); ms.desc += "+fext"; }
   NeighSpec ns = genNeigh(r, s.ndim);
   std::string nd = ns.desc;
@@ -460,6 +476,7 @@ static void opKriging(Rng& r, Ctx& c)
     doutR = mkTargetsReduced(t);
   }
   Key K = mkKey("kriging", neighOnly ? "test_neigh:" + nd : nd, s, ns.kind == 2);
+  if (linear && !K.collapsed && !neighOnly) K = Key {"C05:kriging:linear-model:field-extension", true};
   auto krige = [&](Db* din, Db* dout, ANeigh* ng) {
     if (neighOnly) return test_neigh(din, dout, model.get(), ng);
     return kriging(din, dout, model.get(), ng, EKrigOpt::POINT, true, flagStd, flagVarz);
@@ -513,6 +530,8 @@ static void opXvalid(Rng& r, Ctx& c)
   int drift = r.irange(-1, 1);
   ModelSpec ms;
   auto model = genModel(r, s.ndim, s.nvar, drift, ms);
+  bool linear = r.coin(0.1);
+  if (linear) { drift = 0; model = genLinearModel(r, s.nvar, ms); }
   NeighSpec ns = genNeigh(r, s.ndim);
   std::string nd = ns.desc;
   auto neigh = mkNeigh(ns, true), neighR = mkNeigh(ns, true);
@@ -526,6 +545,7 @@ static void opXvalid(Rng& r, Ctx& c)
   auto dM = mkMasked(r, s);
   auto dR = mkReduced(s);
   Key K = mkKey("xvalid", nd, s, ns.kind == 2);
+  if (linear && !K.collapsed) K = Key {"C05:xvalid:linear-model:field-extension", true};
   int ncM = dM->getColumnNumber(), ncR = dR->getColumnNumber();
   std::vector<double> snap = snapshot(dM.get(), ncM);
   TRACE(c, "xvalid %s n=%d kept=%d -> masked run", s.sigtag().c_str(), s.n, s.nkept());
@@ -1004,14 +1024,10 @@ static void opSimtub(Rng& r, Ctx& c)
   if (linear && (cond ? s.nkept() + (int)g.active.size() : (int)t.active.size()) < 3) linear = false;
   if (linear)
   {
-    // intrinsic model (linear variogram): its turning-band generator is driven by the Poisson intensity that
-    // CalcSimuTurningBands::_setDensity derives from the number of points to simulate
-    VectorDouble sills(s.nvar * s.nvar, 0.);
-    for (int v = 0; v < s.nvar; v++) sills[v * s.nvar + v] = r.uni(0.5, 2.);
-    model.reset(Model::createFromParam(ECov::LINEAR, r.uni(20, 60), 1., 1., VectorDouble(), sills, VectorDouble(), nullptr, true));
+    // intrinsic model: besides the field constant, its turning-band generator is driven by the Poisson intensity
+    // that CalcSimuTurningBands::_setDensity derives from the number of points to simulate (masked ones included)
+    model = genLinearModel(r, s.nvar, ms);
     drift = 0;
-    model->setDriftIRF(0, 0);
-    ms.desc = "LINEAR+drift=0";
   }
   int nbsimu = r.irange(1, 3);
   int nbtuba = r.pick(std::vector<int> {1, 2, 3, 5, 10, 30, 100});
@@ -1051,7 +1067,7 @@ static void opSimtub(Rng& r, Ctx& c)
     for (int j = 0; j < t.m; j++) if (t.masked[j]) off.push_back(j);
   }
   Key K = cond ? mkKey(kind, "", s, ns.kind == 2) : Key {"C05:" + kind + ":by=none", false};
-  if (linear && !K.collapsed) K = Key {"C05:" + kind + ":linear-model:point-count", true};
+  if (linear && !K.collapsed) K = Key {"C05:" + kind + ":linear-model:field-extension", true};
   int ncM = doutM->getColumnNumber(), ncR = doutR->getColumnNumber(), ncDin = dinM->getColumnNumber();
   std::vector<double> snapOut = snapshot(doutM.get(), ncM), snapIn = snapshot(dinM.get(), ncDin);
   auto neigh = mkNeigh(ns, false), neighR = mkNeigh(ns, false);
